@@ -570,10 +570,11 @@ type ClientCfg struct {
 	// NPN: offer next_protocol_negotiation (extension 13172); when the server's
 	// ServerHello carries it too, a NextProtocol message (type 67) naming NPNProto
 	// is sent between ChangeCipherSpec and Finished (a unit of its own)
-	NPN      bool
-	NPNProto string
-	Curves   []uint16 // supported_groups to offer (needed for the ECDHE suites)
-	NPNSkip  bool     // offer NPN but behave as if the server had not selected it (no NextProtocol, consistent transcript)
+	NPN         bool
+	NPNProto    string
+	Curves      []uint16 // supported_groups to offer (needed for the ECDHE suites)
+	ShareSuffix []byte   // ECDHE: bytes appended to the client's key share
+	NPNSkip     bool     // offer NPN but behave as if the server had not selected it (no NextProtocol, consistent transcript)
 	// IgnoreCertRequest: behave as if no CertificateRequest had been received (no
 	// Certificate message at all, no CertificateVerify), with a consistent transcript.
 	IgnoreCertRequest bool
@@ -879,7 +880,9 @@ func ClientHandshake(c *Conn, cfg *ClientCfg) (*Result, error) {
 		if pre, err = ECDHEShared(k, ecParams.Point); err != nil {
 			return res, fmt.Errorf("reftls client: server ECDHE point: %v", err)
 		}
-		res.CKXBody = Vec8Body(k.PublicKey().Bytes())
+		// (ShareSuffix: extra bytes behind the genuine share, covered by the length byte
+		// and hashed as sent - a share of the wrong size from a peer that goes on honestly)
+		res.CKXBody = Vec8Body(append(append([]byte(nil), k.PublicKey().Bytes()...), cfg.ShareSuffix...))
 	} else if gm {
 		ep, err := PubFromCert(res.ServerCerts[1])
 		if err != nil {
